@@ -448,49 +448,51 @@ func Stacked(j *job.Job, s *job.Sink) {
 			for _, first := range []string{"", "a", "a\n", "ab"} {
 				for _, second := range []string{"c", "c\n", "cd\ne", "\n", "two\nlines\n"} {
 					for limit := 0; limit <= len(second)+3*len(prefix); limit++ {
-						idx++
-						s.Count("silent_short_write_cases", 1)
-						u := &silentShort{limit: limit}
-						w := indent.NewWriter(u, prefix)
-						if first != "" {
-							w.Write([]byte(first))
-						}
-						before := len(u.got)
-						u.armed = true
-						n, err := w.Write([]byte(second))
-						// reference: the output for second, byte by byte, with the caller's bytes marked
-						var out []byte
-						var mine []bool
-						atStart := first == "" || strings.HasSuffix(first, "\n")
-						for _, b := range []byte(second) {
-							if atStart {
-								for range prefix {
-									mine = append(mine, false)
+						for _, then := range []int{-1, 0, 1, 2, 5} {
+							idx++
+							s.Count("silent_short_write_cases", 1)
+							u := &silentShort{limit: limit, then: then}
+							w := indent.NewWriter(u, prefix)
+							if first != "" {
+								w.Write([]byte(first))
+							}
+							before := len(u.got)
+							u.armed = true
+							n, err := w.Write([]byte(second))
+							// reference: the output for second, byte by byte, with the caller's bytes marked
+							var out []byte
+							var mine []bool
+							atStart := first == "" || strings.HasSuffix(first, "\n")
+							for _, b := range []byte(second) {
+								if atStart {
+									for range prefix {
+										mine = append(mine, false)
+									}
+									out = append(out, prefix...)
+									atStart = false
 								}
-								out = append(out, prefix...)
-								atStart = false
+								out = append(out, b)
+								mine = append(mine, true)
+								if b == '\n' {
+									atStart = true
+								}
 							}
-							out = append(out, b)
-							mine = append(mine, true)
-							if b == '\n' {
-								atStart = true
+							arrived := len(u.got) - before
+							want := 0
+							for k := 0; k < arrived && k < len(mine); k++ {
+								if mine[k] {
+									want++
+								}
 							}
-						}
-						arrived := len(u.got) - before
-						want := 0
-						for k := 0; k < arrived && k < len(mine); k++ {
-							if mine[k] {
-								want++
+							cs := map[string]any{"prefix": prefix, "first": first, "second": second, "underlying_accepts": limit, "then_takes_and_fails": then}
+							switch {
+							case arrived >= len(out) && (n != len(second) || err != nil):
+								s.Violation(idx, j.CaseID(idx), "C20.stacked", "full-write-misreported", fmt.Sprintf("prefix %q, after %q: Write(%q) = %d, %v although everything arrived", prefix, first, second, n, err), cs, nil)
+							case arrived < len(out) && n != want:
+								s.Violation(idx, j.CaseID(idx), "C20.stacked", "short-count", fmt.Sprintf("prefix %q, after %q: Write(%q) returned %d, %v; the underlying writer took %d of %d bytes without an error, %d of them the caller's", prefix, first, second, n, err, arrived, len(out), want), cs, nil)
+							case arrived < len(out) && n < len(second) && err == nil:
+								s.Violation(idx, j.CaseID(idx), "C20.stacked", "short-count-without-error", fmt.Sprintf("prefix %q, after %q: Write(%q) returned %d and no error", prefix, first, second, n), cs, nil)
 							}
-						}
-						cs := map[string]any{"prefix": prefix, "first": first, "second": second, "underlying_accepts": limit}
-						switch {
-						case arrived >= len(out) && (n != len(second) || err != nil):
-							s.Violation(idx, j.CaseID(idx), "C20.stacked", "full-write-misreported", fmt.Sprintf("prefix %q, after %q: Write(%q) = %d, %v although everything arrived", prefix, first, second, n, err), cs, nil)
-						case arrived < len(out) && n != want:
-							s.Violation(idx, j.CaseID(idx), "C20.stacked", "short-count", fmt.Sprintf("prefix %q, after %q: Write(%q) returned %d, %v; the underlying writer took %d of %d bytes without an error, %d of them the caller's", prefix, first, second, n, err, arrived, len(out), want), cs, nil)
-						case arrived < len(out) && n < len(second) && err == nil:
-							s.Violation(idx, j.CaseID(idx), "C20.stacked", "short-count-without-error", fmt.Sprintf("prefix %q, after %q: Write(%q) returned %d and no error", prefix, first, second, n), cs, nil)
 						}
 					}
 				}
@@ -530,14 +532,30 @@ type silentShort struct {
 	limit int
 	armed bool
 	got   []byte
+	// then >= 0: should the writer be offered more of the same chunk afterwards, it takes
+	// that many bytes more and fails
+	then   int
+	failed bool
 }
 
 func (w *silentShort) Write(p []byte) (int, error) {
+	if w.failed {
+		k := w.then
+		if k > len(p) {
+			k = len(p)
+		}
+		w.then = 0
+		w.got = append(w.got, p[:k]...)
+		return k, errShort
+	}
 	if !w.armed {
 		w.got = append(w.got, p...)
 		return len(p), nil
 	}
 	w.armed = false
+	if w.then >= 0 {
+		w.failed = true
+	}
 	k := w.limit
 	if k > len(p) {
 		k = len(p)
